@@ -131,7 +131,37 @@ Print Assumptions Blocks_lines_lf_terminated.
    the line at an ASCII byte; where a column-mode advance lands), the closing loops (finalize_up_to,
    add_child_loop), parse_reference_inline on NUL-free valid content, the table functions, the fuel bounds.
    Second round (end of this file): the tree-lookup sites are proved unreachable for every input when tables and
-   description lists are off (Blocks_total_partial_tree_sites); the list of what remains is in the comment there. *)
+   description lists are off (Blocks_total_partial_tree_sites); the list of what remains is in the comment there.
+   Third round (end of this file, Proofs/BlocksTotal3*.v): the eleven tree-lookup sites are unreachable for EVERY
+   option set (Blocks_total_partial_tree_sites_all).  For the rest only bricks, each for all arguments: the block
+   scanners stay inside the string, the byte-mode advance after a scanner match re-establishes CI, the cursor side
+   of the code-fence / ATX / multiline-block-quote / footnote / description-item openers, and the fuel of
+   advance_offset, row, table::matches.
+   REMAINING for the full statement (no whole-parse theorem yet):
+     open-spine sites   mod.rs:finalize_borrowed:assert!(ast.open), mod.rs:add_line:assert!(ast.open),
+                        mod.rs:add_text_to_container:self.finalize(self.current).unwrap(),
+                        mod.rs:add_child:self.finalize(parent).unwrap().  The invariant needed is NOT `exactly the
+                        path root..current is open`: table rows and cells are created open and the header row and all
+                        cells are never finalized (try_opening_header / try_opening_row build them with Ast::new), and
+                        add_child closes the last matched container and its ancestors while the blocks below it are
+                        still open.  Candidate invariant between lines (from reading the model, NOT proved):
+                        self.current and its ancestors are open, each is the last child of its parent, every other
+                        open node is a TableRow / TableCell.
+                        mod.rs:add_child:..unwrap() needs no spine (argument, NOT proved): finalize answers None only
+                        for the root, which is a Document and accepts every kind add_child is called with under a
+                        parent that may refuse it.
+     fuel               check_open_blocks_inner, add_child_loop, finalize_up_to, clear_llb_up, reopen_ast_nodes (depth of
+                        the tree <= number of nodes <= ps_next), open_new_blocks_loop (every iteration that goes on
+                        consumes a byte or ends on a block that accepts lines), list_spaces_loop (8 > 6 columns),
+                        resolve_loop (parse_reference_inline consumes at least one byte), label_loop,
+                        find_closing_line.
+     cursor sites       CI through the remaining handlers (alert, blockquote / skip_one_space, html block, setext,
+                        thematic break, list marker and list_spaces_loop, indented code: column-mode advances), the
+                        prefixes of check_open_blocks, add_text_to_container, and table.rs (row slices, header cells).
+     UTF-8 sites        every from_utf8 except the suffix step of add_line (Blocks_total_utf8_suffix_partial).
+   A whole-parse theorem for a new site needs a second walk: `safe` of Proofs/BlocksTotal2Safe.v is tied to
+   tree_sites; the post-conditions of that walk can be reused (safe_ok), the no-panic half has to be redone for
+   the larger site list. *)
 Definition Blocks_total_full_statement : Prop :=
   forall o x, utf8_valid x = true -> exists r, parse_blocks o x = Ok r.
 
@@ -344,3 +374,147 @@ Theorem Blocks_total_partial_process_line_tree : forall o st line0,
   BlocksTotal2Safe.safe (BlocksTotal2Walk.LI o) (process_line o st line0).
 Proof. exact BlocksTotal2Walk.process_line_spec. Qed.
 Print Assumptions Blocks_total_partial_process_line_tree.
+
+(* ---- totality, third round (Proofs/BlocksTotal3*.v).
+   Step 1 (Proofs/BlocksTotal3Tab.v): the walk of the second round carried through table.rs (try_opening_block,
+   try_opening_header, try_opening_row, try_inserting_table_header_paragraph) and parse_desc_list_details, so the two
+   premises of Blocks_total_partial_tree_sites are gone: no tree-lookup Panic site is reachable, for EVERY input byte
+   string and EVERY option set. *)
+From V Require Proofs.BlocksTotal3Tab.
+
+Theorem Blocks_total_partial_tree_sites_all : forall o x s,
+  In s BlocksTotal2Safe.tree_sites -> parse_blocks o x <> Panic s.
+Proof. exact BlocksTotal3Tab.parse_blocks_no_tree_panic_all. Qed.
+Print Assumptions Blocks_total_partial_tree_sites_all.
+
+Theorem Blocks_total_partial_process_line_tree_all : forall o st line0,
+  BlocksTotal2Walk.LI o st -> BlocksTotal2Safe.safe (BlocksTotal2Walk.LI o) (process_line o st line0).
+Proof. exact BlocksTotal3Tab.process_line_spec'. Qed.
+Print Assumptions Blocks_total_partial_process_line_tree_all.
+
+(* Steps 3 / 4, bricks (Proofs/BlocksTotal3Cur.v), for ALL arguments.
+   Scanners: an Option<usize> scanner whose actions are `return Some(cursor)` and whose default is `return None`, run
+   without NUL padding, answers Some m only with m <= |s| (the winner is a longest match of a rule; a trailing context
+   moves the cursor back).  Pinned for the scanners the block phase slices / advances with; on line[first_nonspace..]
+   this is first_nonspace + m <= |line|. *)
+From V Require Proofs.BlocksTotal3Cur.
+
+Theorem Blocks_total_partial_scanner_inside : forall rules s m,
+  forallb BlocksTotal3Cur.is_cursor_rule rules = true ->
+  Scan.as_opt_usize (Re2c.run_rules rules Re2c.ActNone 0 s) = Some m -> m <= List.length s.
+Proof. exact BlocksTotal3Cur.as_opt_usize_cursor_le. Qed.
+Print Assumptions Blocks_total_partial_scanner_inside.
+
+Theorem Blocks_total_partial_block_scanners_inside : forall s m,
+  (Scan.scan_atx_heading_start s = Some m -> m <= List.length s) /\
+  (Scan.scan_open_code_fence s = Some m -> m <= List.length s) /\
+  (Scan.scan_close_code_fence s = Some m -> m <= List.length s) /\
+  (Scan.scan_footnote_definition s = Some m -> m <= List.length s) /\
+  (Scan.scan_open_multiline_block_quote_fence s = Some m -> m <= List.length s) /\
+  (Scan.scan_close_multiline_block_quote_fence s = Some m -> m <= List.length s) /\
+  (Scan.scan_description_item_start s = Some m -> m <= List.length s) /\
+  (Scan.scan_table_start s = Some m -> m <= List.length s) /\
+  (forall sp, Scan.scan_table_cell s sp = Some m -> m <= List.length s) /\
+  (Scan.scan_table_cell_end s = Some m -> m <= List.length s) /\
+  (Scan.scan_table_row_end s = Some m -> m <= List.length s).
+Proof.
+  intros s m. repeat split; intros;
+  first [ eapply BlocksTotal3Cur.scan_atx_heading_start_le; eassumption
+        | eapply BlocksTotal3Cur.scan_open_code_fence_le; eassumption
+        | eapply BlocksTotal3Cur.scan_close_code_fence_le; eassumption
+        | eapply BlocksTotal3Cur.scan_footnote_definition_le; eassumption
+        | eapply BlocksTotal3Cur.scan_open_mbq_fence_le; eassumption
+        | eapply BlocksTotal3Cur.scan_close_mbq_fence_le; eassumption
+        | eapply BlocksTotal3Cur.scan_description_item_start_le; eassumption
+        | eapply BlocksTotal3Cur.scan_table_start_le; eassumption
+        | eapply BlocksTotal3Cur.scan_table_cell_le; eassumption
+        | eapply BlocksTotal3Cur.scan_table_cell_end_le; eassumption
+        | eapply BlocksTotal3Cur.scan_table_row_end_le; eassumption ].
+Qed.
+Print Assumptions Blocks_total_partial_block_scanners_inside.
+
+(* advance_offset(line, count, false): exactly count bytes when they are there; the other cursor fields stay *)
+Theorem Blocks_total_partial_advance_bytes : forall c line count,
+  c_offset c + count <= List.length line ->
+  exists c', advance_offset c line count false = Ok c'
+             /\ c_offset c' = c_offset c + count /\ c_fns c' = c_fns c /\ c_fnsc c' = c_fnsc c /\ c_indent c' = c_indent c
+             /\ c_blank c' = c_blank c /\ c_tbkp c' = c_tbkp c.
+Proof. exact BlocksTotal3Cur.adv_bytes_exact. Qed.
+Print Assumptions Blocks_total_partial_advance_bytes.
+
+(* the advance of a handler after a scanner match of length m at first_nonspace: no panic, the offset lands on
+   first_nonspace + m, the cursor invariant CI holds again *)
+Theorem Blocks_total_partial_advance_after_match : forall c line m k,
+  c_offset c <= c_fns c -> c_fns c + m <= List.length line -> k = c_fns c + m - c_offset c ->
+  exists c', advance_offset c line k false = Ok c' /\ c_offset c' = c_fns c + m /\ CI c' line.
+Proof. exact BlocksTotal3Cur.CI_after_adv_to. Qed.
+Print Assumptions Blocks_total_partial_advance_after_match.
+
+(* the cursor side of four handlers end to end, from a freshly scanned cursor (offset <= first_nonspace <= |line|):
+   every slice / subtraction site of the detect_ / handle_ pair is defined and the advance re-establishes CI.
+   Sites covered: detect_code_fence:line[self.first_nonspace..], handle_code_fence:first_nonspace - offset,
+   handle_code_fence:first_nonspace + *matched - offset; detect_atx_heading:line[..],
+   handle_atx_heading:heading_startpos + *matched - offset; detect_multiline_blockquote:line[..],
+   handle_multiline_blockquote:first_nonspace - offset, .. + *matched - offset; detect_footnote:line[..],
+   handle_footnote: the upper bound of line[first_nonspace + 2..first_nonspace + matched] and
+   self.first_nonspace + *matched - self.offset; detect_description_list:line[..],
+   handle_description_list:self.first_nonspace + *matched - self.offset; and advance_offset:line[self.offset] in
+   each of these advances. *)
+Theorem Blocks_total_partial_code_fence_cursor : forall c line rest m,
+  c_offset c <= c_fns c <= List.length line -> rest = skipn (c_fns c) line -> Scan.scan_open_code_fence rest = Some m ->
+  slice_from "mod.rs:detect_code_fence:line[self.first_nonspace..]" line (c_fns c) = Ok rest /\
+  sub "mod.rs:handle_code_fence:first_nonspace - offset" (c_fns c) (c_offset c) = Ok (c_fns c - c_offset c) /\
+  sub "mod.rs:handle_code_fence:first_nonspace + *matched - offset" (c_fns c + m) (c_offset c) = Ok (c_fns c + m - c_offset c) /\
+  exists c', advance_offset c line (c_fns c + m - c_offset c) false = Ok c' /\ c_offset c' = c_fns c + m /\ CI c' line.
+Proof. exact BlocksTotal3Cur.code_fence_cursor. Qed.
+Print Assumptions Blocks_total_partial_code_fence_cursor.
+
+Theorem Blocks_total_partial_atx_cursor : forall c line rest m,
+  c_offset c <= c_fns c <= List.length line -> rest = skipn (c_fns c) line -> Scan.scan_atx_heading_start rest = Some m ->
+  slice_from "mod.rs:detect_atx_heading:line[self.first_nonspace..]" line (c_fns c) = Ok rest /\
+  sub "mod.rs:handle_atx_heading:heading_startpos + *matched - offset" (c_fns c + m) (c_offset c) = Ok (c_fns c + m - c_offset c) /\
+  exists c', advance_offset c line (c_fns c + m - c_offset c) false = Ok c' /\ c_offset c' = c_fns c + m /\ CI c' line.
+Proof. exact BlocksTotal3Cur.atx_heading_cursor. Qed.
+Print Assumptions Blocks_total_partial_atx_cursor.
+
+Theorem Blocks_total_partial_mbq_cursor : forall c line rest m,
+  c_offset c <= c_fns c <= List.length line -> rest = skipn (c_fns c) line ->
+  Scan.scan_open_multiline_block_quote_fence rest = Some m ->
+  slice_from "mod.rs:detect_multiline_blockquote:line[self.first_nonspace..]" line (c_fns c) = Ok rest /\
+  sub "mod.rs:handle_multiline_blockquote:first_nonspace - offset" (c_fns c) (c_offset c) = Ok (c_fns c - c_offset c) /\
+  sub "mod.rs:handle_multiline_blockquote:first_nonspace + *matched - offset" (c_fns c + m) (c_offset c) = Ok (c_fns c + m - c_offset c) /\
+  exists c', advance_offset c line (c_fns c + m - c_offset c) false = Ok c' /\ c_offset c' = c_fns c + m /\ CI c' line.
+Proof. exact BlocksTotal3Cur.mbq_cursor. Qed.
+Print Assumptions Blocks_total_partial_mbq_cursor.
+
+Theorem Blocks_total_partial_footnote_cursor : forall c line rest m,
+  c_offset c <= c_fns c <= List.length line -> rest = skipn (c_fns c) line -> Scan.scan_footnote_definition rest = Some m ->
+  slice_from "mod.rs:detect_footnote:line[self.first_nonspace..]" line (c_fns c) = Ok rest /\
+  Nat.ltb (List.length line) (c_fns c + m) = false /\
+  sub "mod.rs:handle_footnote:self.first_nonspace + *matched - self.offset" (c_fns c + m) (c_offset c) = Ok (c_fns c + m - c_offset c) /\
+  exists c', advance_offset c line (c_fns c + m - c_offset c) false = Ok c' /\ c_offset c' = c_fns c + m /\ CI c' line.
+Proof. exact BlocksTotal3Cur.footnote_cursor. Qed.
+Print Assumptions Blocks_total_partial_footnote_cursor.
+
+Theorem Blocks_total_partial_description_item_cursor : forall c line rest m,
+  c_offset c <= c_fns c <= List.length line -> rest = skipn (c_fns c) line -> Scan.scan_description_item_start rest = Some m ->
+  slice_from "mod.rs:detect_description_list:line[self.first_nonspace..]" line (c_fns c) = Ok rest /\
+  sub "mod.rs:handle_description_list:self.first_nonspace + *matched - self.offset" (c_fns c + m) (c_offset c) = Ok (c_fns c + m - c_offset c) /\
+  exists c', advance_offset c line (c_fns c + m - c_offset c) false = Ok c' /\ c_offset c' = c_fns c + m /\ CI c' line.
+Proof. exact BlocksTotal3Cur.description_item_cursor. Qed.
+Print Assumptions Blocks_total_partial_description_item_cursor.
+
+(* Fuel: advance_offset never runs out of fuel (fuel = count, every iteration consumes at least one unit of count);
+   the row scanner of table.rs never runs out of fuel (every iteration that goes on moves the offset forward and the
+   loop stops at the end of the string), hence table::matches neither; find_first_nonspace has no fuel *)
+Theorem Blocks_total_partial_fuel_advance : forall c line count columns, advance_offset c line count columns <> OutOfFuel.
+Proof. exact BlocksTotal3Cur.advance_offset_fuel. Qed.
+Print Assumptions Blocks_total_partial_fuel_advance.
+
+Theorem Blocks_total_partial_fuel_row : forall s sp, row s sp <> OutOfFuel.
+Proof. exact BlocksTotal3Cur.row_fuel. Qed.
+Print Assumptions Blocks_total_partial_fuel_row.
+
+Theorem Blocks_total_partial_fuel_table_matches : forall s sp, table_matches s sp <> OutOfFuel.
+Proof. exact BlocksTotal3Cur.table_matches_fuel. Qed.
+Print Assumptions Blocks_total_partial_fuel_table_matches.
